@@ -16,7 +16,7 @@ LEVEL = "exploration"
 RULE = ("random lattice arrays (multiples of 1/8, zeros, negatives) for the ten arithmetic commands, every int64/float64 assignment "
         "for n<=4 inputs (sampled for 5), input orders permuted, weights int/float/mixed; plus single-fault cases (shape, weight count, "
         "empty list); distinct by (command, n, dtype assignment, mask classes, param kinds, fault kind)")
-REQUIRED_COUNTERS = ["command_object_input_cases", "ref_postconditions", "order_checks", "fault_checks", "zero_divisor_cells", "zero_weight_sum_cases", "repeated_field_cases", "later_command_checks", "fault_reevaluations", "chained_field_cases"]
+REQUIRED_COUNTERS = ["fields_read_from_a_reused_file", "program_less_fault_checks", "command_object_input_cases", "ref_postconditions", "order_checks", "fault_checks", "zero_divisor_cells", "zero_weight_sum_cases", "repeated_field_cases", "later_command_checks", "fault_reevaluations", "chained_field_cases"]
 ASSUMPTIONS = ["reference models in mpv/ref.py", "int64 overflow and NaN/inf inputs are never generated", "result dtype is not judged"]
 
 COMMUTATIVE = ("Sum", "Multiply", "Minimum", "Maximum", "Mean", "WeightedSum", "WeightedMean")
@@ -191,6 +191,51 @@ def run_chained(ctx, case):
             return
 
 
+_shared = {"dir": None}
+
+
+def _via_file(ctx, cmd, inputs, params, fcols, want, scale):
+    """The same fields read from a CSV table - always the same path, rewritten for every case of this process - and combined
+    by the command: the result follows what the file holds now."""
+    import os
+    cells = [arr.cells(a) for a in inputs]
+    if any(v == -9999 or (isinstance(v, float) and (v != v or v in (float("inf"), float("-inf")))) for col in cells for v in col if v is not None):
+        return None
+    if _shared["dir"] is None:
+        _shared["dir"] = ctx.scratch()
+    d = _shared["dir"]
+    with open(os.path.join(d, "data.csv"), "w") as f:
+        f.write(",".join("c%d" % i for i in range(len(inputs))) + "\n")
+        for r in range(len(cells[0])):
+            f.write(",".join("-9999" if col[r] is None else repr(col[r]) for col in cells) + "\n")
+    prog = arr.new_program(working_dir=d)
+    names = []
+    for i, a in enumerate(inputs):
+        o = arr.invoke(prog, "EEMSRead", "R%d" % i, {"InFileName": "data.csv", "InFieldName": "c%d" % i, "MissingVal": -9999, "DataType": "Integer" if a.dtype.kind in "iu" else "Float"})
+        if not o.ok:
+            ctx.note_inconclusive("via-file: read raises %s" % o.err)
+            return None
+        names.append("R%d" % i)
+    style = arr.INPUT_STYLE.get(cmd, "list")
+    args = dict(params)
+    if style == "one":
+        args["InFieldName"] = names[0]
+    elif style == "ab":
+        args["A"], args["B"] = names[0], names[1]
+    else:
+        args["InFieldNames"] = names
+    out = arr.invoke(prog, cmd, "Res", args)
+    ctx.count("fields_read_from_a_reused_file")
+    if not out.ok:
+        ctx.fail("%s:raises-%s:fields-read-from-a-file" % (cmd, out.inner() or out.err), {"error": repr(out.exc)[:200], "params": params})
+        return False
+    bad = ref.compare(out.value, want, scale=scale, rel=1e-12)
+    if bad:
+        ctx.fail("%s:%s:fields-read-from-a-file-that-was-rewritten" % (cmd, bad[0]), {"cell": bad[1], "got": bad[2], "want": bad[3], "params": params})
+        return False
+    return True
+
+
 def run_case(ctx, case):
     if case["kind"] == "chained":
         return run_chained(ctx, case)
@@ -262,6 +307,9 @@ def run_case(ctx, case):
                                                               "got": g, "want": w, "params": params, "result_type": type(res).__name__})
                 elif len(ctx.samples) < 4:
                     ctx.sample({"cmd": cmd, "params": params, "inputs": [arr.describe(a, 6) for a in inputs], "result": arr.describe(res, 6)})
+    if want is not None and out.ok and not refs and len(inputs[0].shape) == 1 and all(s["dtype"] in ("int64", "float64") for s in case["inputs"]) and (n + len(case["inputs"][0]["data"])) % 3 == 0:
+        if _via_file(ctx, cmd, inputs, params, fcols, want, scale) is False:
+            return
     order = case["order"]
     small_ints = any(s["dtype"] in ("int16", "int32") for s in case["inputs"])   # partial results may overflow in one order only
     # a later command over the same fields (Sum of all of them) still sees what they held: the command under test computed
@@ -313,6 +361,35 @@ def _run_fault(ctx, case, cmd, inputs, params):
             if type(e2).__name__ != out.err:
                 ctx.fail("%s:fault-%s:asked-again-gives-%s" % (cmd, fault, type(e2).__name__ if e2 is not None else "a-result"), {"first": out.err, "again_through": again, "error": repr(e2)[:200]})
                 return
+    if inputs and not out.ok and out.err == want:
+        # the same faulty call on a command that belongs to no program (built by hand from argument objects, as the programming
+        # interface allows), fed by finished commands that belong to none either: the same error
+        from mpilot.arguments import Argument
+        from mpilot.commands import Command
+        ctx.count("program_less_fault_checks")
+        prods = []
+        for i, a in enumerate(inputs):
+            c = Command("In%d" % i, [], program=None)
+            c.is_finished, c._result = True, a
+            prods.append(c)
+        style = arr.INPUT_STYLE.get(cmd, "list")
+        kw = dict(params)
+        if style == "one":
+            kw["InFieldName"] = prods[0]
+        elif style == "ab":
+            kw["A"], kw["B"] = prods[0], prods[1]
+        else:
+            kw["InFieldNames"] = prods
+        cls = fprog.find_command_class(cmd)
+        try:
+            cls("Lone", [Argument(k, v) for k, v in kw.items()], program=None).result
+            e3 = None
+        except Exception as e:
+            e3 = e
+        if type(e3).__name__ != want:
+            inner = type(getattr(e3, "exc", None)).__name__ if type(e3).__name__ == "UnexpectedError" else None
+            ctx.fail("%s:fault-%s:command-without-a-program-%s" % (cmd, fault, "accepts" if e3 is None else "raises-" + type(e3).__name__ + ("/" + inner if inner else "")), {"error": repr(e3)[:200], "want": want})
+            return
     if out.ok:
         ctx.fail("%s:fault-%s-accepted" % (cmd, fault), {"params": params, "shapes": [s["shape"] for s in case["inputs"]]})
     elif out.err != want:
